@@ -56,7 +56,7 @@ def snapshot(root):
     return snap
 
 
-def read_trace(path, stems, names=None, nworkers=2, cap=100, outcome=None):
+def read_trace(path, stems, names=None, nworkers=2, cap=100, outcome=None, out_of=None, single=True):
     """Event log of one run -> records for Trace_Pipeline (header first). `stems`: source file stems;
     `names`: first type name -> stem (Recv events identify a result by its first type name)."""
     names = names or {}
@@ -78,7 +78,9 @@ def read_trace(path, stems, names=None, nworkers=2, cap=100, outcome=None):
         else:
             events.append({"ev": ev, "w": "", "file": e["file"], "detail": e["detail"]})
     n = max(nworkers, len(wmap))
-    header = {"files": sorted(stems), "workers": [f"w{i + 1}" for i in range(n)], "cap": cap}
+    # out_of: source file stem -> stem of the output file its items go to (Pipeline!OutOf); single: -o or -d
+    header = {"files": sorted(stems), "workers": [f"w{i + 1}" for i in range(n)], "cap": cap,
+              "out_of": {s: (out_of or {}).get(s, "out") for s in sorted(stems)}, "single": bool(single)}
     if outcome is not None:
         events.append({"ev": "Exit", "w": "", "file": "", "detail": str(outcome)})
     return header, events
